@@ -448,7 +448,7 @@ def direct_failures_extra(budget):
     # HEALPix nested refinement is geometric: a child's centre lies in its parent's pixel, pixel
     # centres round-trip, and the 8 neighbours agree with ducc0's HEALPix implementation.
     import ducc0
-    for nside0, depth in [(1, 2), (2, 1)] + ([(4, 2)] if budget > 1 else []):
+    for nside0, depth in [(1, 2)] + ([(2, 1), (4, 2)] if budget > 1 else []):
         g = HEALPixGrid(nside0=nside0, depth=depth)
         for l in range(depth + 1):
             ga = g.at(l)
@@ -529,6 +529,8 @@ def fixed_specs(quick):
     for s0 in (1, 2, 3):
         for d in (0, 1, 2):
             for sp in itertools.product((1, 2, 3), repeat=d):
+                if quick and ((d == 2 and s0 != 2) or (d == 0 and s0 == 2)):
+                    continue
                 specs.append({"bases": [R((s0,), [(x,) for x in sp])]})
     specs += [
         {"bases": [R((3, 2), [(2, 2), (2, 3)])]},
@@ -639,7 +641,7 @@ class C31(C.Check):
         C.write_if_changed(os.path.join(C.COQ, "C31", "Gen_Index.v"), text)
 
     def correspondence(self, ctx, res):
-        rng = ctx.rng(131)
+        fasteval.enable_jax_cache()
         self.specs = gen_specs(ctx)
         checks, meta = [], []
         self.obs = []
@@ -682,6 +684,11 @@ class C31(C.Check):
         rng = ctx.rng(231)
         n = 0
         specs = list(hints) + [s for s in self.specs if s not in hints]
+        if budget == 1 and ctx.quick:
+            # nothing is broken: the small 1-D regular family is covered by the correspondence;
+            # the direct oracle runs on the structurally different grids
+            specs = [s for s in specs if not (len(s["bases"]) == 1 and s["bases"][0]["kind"] == "reg"
+                                              and len(s["bases"][0]["shape0"]) == 1 and spec_depth(s) < 2)]
         for spec in specs:
             try:
                 fs = direct_failures(spec)
